@@ -7,6 +7,7 @@ package main
 import (
 	"encoding/json"
 	"fmt"
+	"math/big"
 	"net"
 	"net/http"
 	"net/url"
@@ -607,6 +608,46 @@ var remotes = []remoteSpec{
 var cidrs = []string{"", "127.0.0.1/8", "127.0.0.0/30", "127.9.0.0/16", "127.0.0.1/32", "10.0.0.0/8", "10.1.2.3/31", "192.168.7.0/24",
 	"203.0.113.77/32", "0.0.0.0/0", "0.0.0.0/1", "::1/128", "fd00::/8", "::/0", "2001:db8::/64", "::ffff:127.0.0.0/104", "::ffff:10.1.2.0/120"}
 
+// cidrNeighbours: the first and last address of the network, the addresses just outside it,
+// and (for IPv4 networks) the IPv4-mapped IPv6 spelling of an inside address
+func cidrNeighbours(cidr string) []string {
+	_, ipnet, err := net.ParseCIDR(cidr)
+	if err != nil {
+		lib.Fatalf("cidr %q: %v", cidr, err)
+	}
+	base := ipnet.IP
+	if v4 := base.To4(); v4 != nil {
+		base = v4
+	}
+	mask := ipnet.Mask
+	if len(mask) == 16 && len(base) == 4 {
+		mask = mask[12:]
+	}
+	n := new(big.Int).SetBytes(base)
+	ones, bits := mask.Size()
+	size := new(big.Int).Lsh(big.NewInt(1), uint(bits-ones))
+	last := new(big.Int).Sub(new(big.Int).Add(n, size), big.NewInt(1))
+	limit := new(big.Int).Lsh(big.NewInt(1), uint(bits))
+	toIP := func(v *big.Int) string {
+		if v.Sign() < 0 || v.Cmp(limit) >= 0 {
+			return ""
+		}
+		b := v.FillBytes(make([]byte, bits/8))
+		return net.IP(b).String()
+	}
+	var out []string
+	for _, v := range []*big.Int{n, last, new(big.Int).Sub(n, big.NewInt(1)), new(big.Int).Add(last, big.NewInt(1)),
+		new(big.Int).Add(n, new(big.Int).Rsh(size, 1))} {
+		if s := toIP(v); s != "" {
+			out = append(out, s)
+			if bits == 32 {
+				out = append(out, "::ffff:"+s)
+			}
+		}
+	}
+	return out
+}
+
 func genConfig(r *lib.Rand, k int) C17In {
 	in := C17In{Name: fmt.Sprintf("cfg-%d", k), Admins: adminLists[r.Intn(2)], Header: "", CIDR: cidrs[r.Intn(len(cidrs))],
 		Mode: "L2", Pattern: "/config/:opt", IdClass: "absent"}
@@ -620,9 +661,15 @@ func genConfig(r *lib.Rand, k int) C17In {
 		in.Transport = "direct"
 		rs := remotes[r.Intn(len(remotes))]
 		in.Remote, in.RemoteIP = rs.remote, rs.ip
+		if in.CIDR != "" && r.Chance(60) {
+			// an address chosen relative to the network: first, last, just below, just above, IPv4-mapped form
+			nb := cidrNeighbours(in.CIDR)
+			ip := nb[r.Intn(len(nb))]
+			in.Remote, in.RemoteIP = net.JoinHostPort(ip, "77"), ip
+		}
 	}
 	if in.Method == "PUT" {
-		in.BodyClass = []string{"valid", "valid", "valid", "invalid", "empty"}[r.Intn(5)]
+		in.BodyClass = []string{"valid", "valid", "valid", "valid", "invalid", "empty"}[r.Intn(6)]
 		if r.Chance(2) {
 			in.BodyClass = "toobig"
 		}
